@@ -388,6 +388,13 @@ def bitop(op, a, b):
     c = ctx()
     ta, tb = tint(a), tint(b)
     if op == "or":
+        # x | m with concrete m: equals x + m when 0 <= x < (lowest set bit of m)
+        for x, m in ((a, b), (b, a)):
+            if isinstance(m, int) and not isinstance(m, bool) and m > 0 and not isinstance(x, int):
+                low = m & -m
+                tx = tint(x)
+                if c._check(z3.Not(z3.And(tx >= 0, tx < low))) == z3.unsat:
+                    return mk_int(tx + m)
         for x, y in ((ta, tb), (tb, ta)):
             for k in (8, 16, 24, 32):
                 p = 1 << k
@@ -905,6 +912,19 @@ class SBytes:
         return bytes(out)
 
     # -- a few methods used by the verified code -------------------------------
+    def removesuffix(self, suffix):
+        suffix = bytes(suffix)
+        k = len(suffix)
+        if k == 0:
+            return self
+        n = tint(self.length())
+        conj = [n >= k]
+        for j, ch in enumerate(suffix):
+            conj.append(self._byte_term(n - k + j) == ch)
+        if ctx().branch(z3.And(*conj), "removesuffix.match"):
+            return self.slice(0, mk_int(n - k))
+        return self
+
     def decode(self, encoding="utf-8", errors="strict"):
         from . import stubs
 
